@@ -12,7 +12,7 @@ EXPLANATION = (
     'the Ok edge of sync_all; on the unequal edge the staging file is removed and no rename is reachable; (R3) the streaming loop hashes exactly what '
     'it stores, reads through take(request len) and leaves only on n == 0; (R4) the number of streamed bytes is compared with `len` before commit; '
     'a Write adaptor in the hub that forwards write() to an inner writer forwards flush() to it too (a buffered tail must not outlive the fsync and the rename); (R5) staging ownership (= C03.R6); (R6) a Get announces len/hash of the bytes it sends (one handle or a held region). '
-    'R6 also: every value that can reach the hash a Get announces is finalize() of a hasher fed from the opened file - never a digest remembered for the path. Not decided: the "at every instant" observation under real interleavings/kills (follows from R1, R2, R5 on paper).')
+    'A put handler that keeps its staging file in an Option field is not decided by the per-call path rules (R1-R4), except that a truncating creator on a live name is reported. R6 also: every value that can reach the hash a Get announces is finalize() of a hasher fed from the opened file - never a digest remembered for the path. Not decided: the "at every instant" observation under real interleavings/kills (follows from R1, R2, R5 on paper).')
 ASSUMPTIONS = ['rename(2) atomicity; sync_all flushes the staged file', 'blake3::Hasher implements BLAKE3']
 
 MUT = tables.FS_MUTATORS
